@@ -40,7 +40,7 @@ def gen_dag_config(rng, n=None):
         t = {"path": p}
         cands = [q for q in names[:i] if not q.startswith(p + "/") and not p.startswith(q + "/")]
         k = rng.choice([0, 0, 1, 1, 2]) if cands else 0
-        if k: t["uses"] = rng.sample(cands, min(k, len(cands)))
+        if k: t["uses"] = [q if rng.random() < 0.6 else q + rng.choice(["/src", "/src/lib.rs", "/"]) for q in rng.sample(cands, min(k, len(cands)))]      # the dependency's directory, or a path inside it
         pref = [q for q in cands if p.startswith(q)]          # e.g. t12 uses t1, core-utils uses core
         if pref and rng.random() < 0.7: t["uses"] = sorted(set(t.get("uses", []) + [rng.choice(pref)]))
         if rng.random() < 0.3: t["commands"] = {"path": rng.choice([p + "/scripts", "tools/cmd_" + p.replace("/", "_")])}     # commands kept outside the default directory
@@ -92,12 +92,23 @@ def run_case(ctx, rng, focus, forced=None):
             if mode == "deps": args.append("--deps")
         if fou: args.append("--fail-on-undefined")
         changed = None
+        range_opts = []
         if mode == "changed":
             rc, out, err, raw = vlib.monorail(rr.repo, "checkpoint", "update")
+            if rng.random() < 0.4 or (forced or {}).get("interval"):
+                # an explicit change interval (--begin / --end) given to run and to analyze alike: two more commits, each touching some targets
+                revs = [vlib.git(rr.repo, "rev-parse", "HEAD").decode().strip()]
+                for ci in range(2):
+                    for p in rng.sample(paths, rng.randint(1, len(paths))):
+                        open(os.path.join(rr.repo, p, "commit%d_%d.txt" % (ci, rng.randrange(1000))), "w").write("x")
+                    vlib.git(rr.repo, "add", "-A"); vlib.git(rr.repo, "commit", "-q", "-m", "c%d" % ci)
+                    revs.append(vlib.git(rr.repo, "rev-parse", "HEAD").decode().strip())
+                range_opts = rng.choice([["--begin", revs[0], "--end", revs[1]], ["--begin", revs[1]], ["--end", revs[1]], ["--begin", revs[1], "--end", revs[2]]])
+                args += range_opts; ctx.count("run_with_change_interval")
             for p in rng.sample(paths, rng.randint(0, len(paths))):
                 open(os.path.join(rr.repo, p, "new_%d.txt" % rng.randrange(1000)), "w").write("x")
         # what analyze says right now (member order inside groups, selected targets)
-        rc, an, err, raw = vlib.monorail(rr.repo, "analyze", "--target-groups")
+        rc, an, err, raw = vlib.monorail(rr.repo, "analyze", "--target-groups", *range_opts)
         if rc != 0 or not an:
             ctx.count("analyze_rejected"); return
         if mode in ("all", "changed"):
@@ -154,6 +165,13 @@ def run_case(ctx, rng, focus, forced=None):
                 if k in script and "exit" not in script[k]:
                     script[k] = {"sleep_ms": rng.choice([700, 900, 1200]), "detach_output": True}
             ctx.count("detached_long_runner")
+        if focus in ("C05", "C06") and selected and rng.random() < 0.4:
+            # what a child prints is no business of the scheduler: bytes that are not UTF-8 (Latin-1 text, binary), a NUL, no final newline
+            for _ in range(rng.choice([1, 2])):
+                k = "%s|%s" % (rng.choice(expected_cmds), rng.choice(selected))
+                if k in script and "chunks" not in script[k]:
+                    script[k]["chunks"] = [[1, rng.choice([b"caf\xe9 ok\n", b"\xff\xfe binary \x00 bytes\n", b"\xc3\x28 broken utf-8"]).hex(), 0], [2, b"warn: \xa4 sign".hex(), 0]]
+            ctx.count("non_utf8_output")
         if any(isinstance(v, dict) and "signal" in v for v in script.values()): ctx.count("failure_by_signal")
         eff_kinds, flip = kinds, None
         if focus == "C06" and len(expected_cmds) >= 2 and selected and (rng.random() < 0.35 or (forced or {}).get("flip")):
@@ -285,6 +303,16 @@ def evaluate(ctx, focus, case, cfg, rr, rc, out, err, traces, expected_cmds, sel
             if st in ("undefined", "not_executable", "skipped") and trs: problems.append({"no_process_status_but_started": [c, t, st]})
             if st not in STATUS: problems.append({"unexpected_status": [c, t, st]})
             if (st == "error") or st == "not_executable" or (st == "undefined" and fou): any_bad = True
+        # an `error` without a code for a process that exited 0 by itself is a cancelled sibling: somebody else in its group must really have failed
+        for ci_, (cmd_, groups_) in enumerate(res):
+            for g_ in groups_:
+                def really_failed(t_):
+                    st_, code_ = g_[t_]; trs_ = started.get((cmd_, t_), [])
+                    return st_ == "not_executable" or (st_ == "undefined" and fou) or any(x.get("exit") not in (0, None) or x.get("signal") for x in trs_)
+                for t_ in g_:
+                    st_, code_ = g_[t_]; trs_ = started.get((cmd_, t_), [])
+                    if st_ == "error" and code_ is None and trs_ and all(x.get("exit") == 0 and not x.get("signal") for x in trs_) and not any(really_failed(u_) for u_ in g_ if u_ != t_):
+                        problems.append({"error_reported_for_a_process_that_exited_0_and_nothing_else_failed": [cmd_, t_]})
         exited_bad = any(tr.get("exit") not in (0, None) or tr.get("signal") for trs in started.values() for tr in trs)
         if bool(out.get("failed")) != (any_bad or exited_bad): problems.append({"failed_flag": out.get("failed"), "should_be": any_bad or exited_bad})
         if rc != (1 if out.get("failed") else 0): problems.append({"exit_status": rc, "failed": out.get("failed")})
@@ -374,6 +402,11 @@ def run(ctx, scale, focus):
             fcfg = {"targets": [{"path": "f%d" % i} for i in range(3)], "sequences": SEQS}
             run_case(ctx, random.Random(cs), focus, forced={"case_seed": cs, "cfg": fcfg, "mode": "all", "named": [], "fou": False, "fail_at": [], "only_cmds": ["build", "test"], "flip": fl})
     if focus == "C05":
+        # run with an explicit change interval: it must execute what analyze reports for the same --begin / --end
+        for rep in range(3 if ctx.quick() else 12):
+            r0 = random.Random(ctx.rng.getrandbits(32)); cs = r0.getrandbits(32)
+            run_case(ctx, random.Random(cs), focus, forced={"case_seed": cs, "cfg": gen_dag_config(r0, n=r0.randint(3, 5)), "mode": "changed", "named": [], "interval": True})
+    if focus == "C05":
         # sequences and commands in one invocation: the expanded sequences come first, then the commands, all of them
         for rep in range(2 if ctx.quick() else 10):
             r0 = random.Random(ctx.rng.getrandbits(32)); cs = r0.getrandbits(32)
@@ -386,7 +419,8 @@ def run(ctx, scale, focus):
         # a dependent whose name merely extends its dependency's name (core-utils uses core, t12 uses t1), the dependency slower
         for rep in range(2 if ctx.quick() else 10):
             r0 = random.Random(ctx.rng.getrandbits(32)); cs = r0.getrandbits(32)
-            pcfg = {"targets": [{"path": "core"}, {"path": "core-utils", "uses": ["core"]}, {"path": "t1"}, {"path": "t12", "uses": ["t1/src"]}, {"path": "t1/inner"}], "sequences": SEQS}
+            pcfg = {"targets": [{"path": "core"}, {"path": "core-utils", "uses": ["core"]}, {"path": "t1"}, {"path": "t12", "uses": ["t1/src"]}, {"path": "t1/inner"},
+                                {"path": "d\u00e9p"}, {"path": "app", "uses": ["d\u00e9p/src"]}, {"path": "\u65e5\u672c/lib"}, {"path": "tool", "uses": ["\u65e5\u672c/lib/x.rs"]}], "sequences": SEQS}
             r0.shuffle(pcfg["targets"])
             run_case(ctx, random.Random(cs), focus, forced={"case_seed": cs, "cfg": pcfg, "mode": "all", "named": [], "timing": "deps_slower", "plain": True})
             ctx.count("prefix_named_dependents")
